@@ -1,8 +1,9 @@
 use std::collections::HashMap;
-use shared::rule::Rule;
+use shared::rule::{FilterCondition, Rule};
 use shared::terms::{Term, TriplePattern};
 use shared::triple::Triple;
 use crate::reasoning::Reasoner;
+use crate::reasoning::rules::evaluate_filters;
 
 fn unify_patterns(
     pattern1: &TriplePattern,
@@ -137,11 +138,23 @@ fn rename_rule_variables(rule: &Rule, counter: &mut usize) -> Rule {
         new_conclusions.push((conclusion_s, conclusion_p, conclusion_o));
     }
 
+    // Filters talk about the rule's variables: rename them along with the patterns
+    let rename_name = |name: &String| var_map.get(name).cloned().unwrap_or_else(|| name.clone());
+    let new_filters = rule
+        .filters
+        .iter()
+        .map(|f| FilterCondition {
+            variable: rename_name(&f.variable),
+            operator: f.operator.clone(),
+            value: rename_name(&f.value),
+        })
+        .collect();
+
     Rule {
         premise: new_premise,
         negative_premise: vec![],
         conclusion: new_conclusions,
-        filters: rule.filters.clone(),
+        filters: new_filters,
     }
 }
 
@@ -222,6 +235,21 @@ impl Reasoner {
                             new_premise_results.extend(sub_res);
                         }
                         premise_results = new_premise_results;
+                    }
+                    // A rule instance only exists if its filters hold (same test as forward chaining)
+                    if !renamed_rule.filters.is_empty() {
+                        let dict = self.dictionary.read().unwrap();
+                        premise_results.retain(|b| {
+                            let mut ground: HashMap<String, u32> = HashMap::new();
+                            for f in &renamed_rule.filters {
+                                for name in [&f.variable, &f.value] {
+                                    if let Term::Constant(c) = resolve_term(&Term::Variable(name.clone()), b) {
+                                        ground.insert(name.clone(), c);
+                                    }
+                                }
+                            }
+                            evaluate_filters(&ground, &renamed_rule.filters, &dict)
+                        });
                     }
                     results.extend(premise_results);
                 }
